@@ -11,7 +11,7 @@ pub const DEF: PropDef = PropDef {
     id: "C11",
     run,
     oracle,
-    rule: "cases = sequences of 1..8 (thorough: up to 12, and a tail of up to 300) self-delimiting packets mixing V5, V7, IPFIX and V9 (count = number of flowsets) built from a conformant plan, with template-before-data dependencies across packets, redefinitions, and optionally a last packet carrying data for an unknown template (an error ends a buffer, so it is only comparable in last position). Oracle: for every partition of the sequence into consecutive calls (all 2^(n-1) for n <= 8, 64 sampled by a deterministic stride beyond), the concatenated results (compared through their complete Debug rendering, which includes padding, plus to_be_bytes) and the final cache state equal those of the one-packet-per-call run on a fresh parser. non-trivial = n >= 3, >= 2 versions present, and some packet decodes data under a template defined by an earlier packet of the sequence; distinct by digest.",
+    rule: "cases = sequences of 1..8 (thorough: up to 12, and a tail of up to 300) self-delimiting packets mixing V5, V7, IPFIX and V9 (count = number of flowsets) built from a conformant plan, with template-before-data dependencies across packets, redefinitions, byte-identical repeats of up to two packets (retransmissions: adjacent, and again further down the sequence), and optionally a last packet carrying data for an unknown template (an error ends a buffer, so it is only comparable in last position). Oracle: for every partition of the sequence into consecutive calls (all 2^(n-1) for n <= 8, 64 sampled by a deterministic stride beyond), the concatenated results (compared through their complete Debug rendering, which includes padding, plus to_be_bytes) and the final cache state equal those of the one-packet-per-call run on a fresh parser. non-trivial = n >= 3, >= 2 versions present, and some packet decodes data under a template defined by an earlier packet of the sequence; distinct by digest.",
     assumptions: &["Debug rendering of result elements is complete (derived on every result type) and deterministic (results hold no hash maps)"],
 };
 
@@ -29,7 +29,14 @@ fn run_partition(pkts: &[Vec<u8>], cuts: u64) -> (Vec<String>, String) {
         let last = i + 1 == pkts.len();
         if last || is_cut(cuts, i) {
             for el in p.parse_bytes(&buf) {
-                out.push(format!("{:?}", el));
+                let exported: String = match &el {
+                    netflow_parser::NetflowPacket::V5(v) => hex(&v.to_be_bytes()),
+                    netflow_parser::NetflowPacket::V7(v) => hex(&v.to_be_bytes()),
+                    netflow_parser::NetflowPacket::V9(v) => v.to_be_bytes().map(|b| hex(&b)).unwrap_or_else(|e| format!("error {}", e)),
+                    netflow_parser::NetflowPacket::IPFix(v) => v.to_be_bytes().map(|b| hex(&b)).unwrap_or_else(|e| format!("error {}", e)),
+                    netflow_parser::NetflowPacket::Error(_) => String::new(),
+                };
+                out.push(format!("{:?} export={}", el, exported));
             }
             buf.clear();
         }
@@ -111,6 +118,9 @@ pub fn oracle(case: &Case) -> Outcome {
     if n >= 3 && versions.len() >= 2 && dependent {
         o.nontrivial = true;
     }
+    if pkts.windows(2).any(|w| w[0] == w[1] && w[0].len() >= 2 && matches!(be16(&w[0], 0), 9 | 10)) {
+        o.label("adjacent-identical-v9/ipfix-packets");
+    }
     o.label(format!("n={}", n.min(13)));
     o.label(format!("partitions={}", parts.len()));
     if dependent {
@@ -131,11 +141,27 @@ pub fn seq_case(min: usize, max: usize, max_recs: usize) -> BoxedStrategy<Case> 
         mixed_kinds: false,
     };
     let call = proptest::collection::vec(gen::pkt_plan(cfg.mix, cfg.max_sets, cfg.max_recs), min..=max);
-    (gen::pool(2..=4, 6, false), call, 0u8..8)
-        .prop_map(|(pool, pkts, tail)| {
+    // retransmissions: up to two packets are repeated (1-2 extra byte-identical copies right
+    // after the original), as exporters do with template refreshes
+    let dups = proptest::collection::vec((any::<proptest::sample::Index>(), 1usize..=2), 0..=2);
+    (gen::pool(2..=4, 6, false), call, 0u8..8, dups)
+        .prop_map(|(pool, pkts, tail, dups)| {
             let plan = gen::StreamPlan { pool, calls: vec![pkts] };
             let b = gen::build(&plan, &BuildOpts { count_by_flowsets: true, ..BuildOpts::WIDE });
             let mut packets = b.calls.into_iter().next().map(|c| c.packets).unwrap_or_default();
+            for (ix, copies) in dups {
+                if packets.is_empty() {
+                    break;
+                }
+                let i = ix.index(packets.len());
+                let pk = packets[i].clone();
+                if copies == 2 {
+                    // one adjacent copy and one further down (A .. B .. A)
+                    let j = i + 1 + (pk.len() + i) % (packets.len() - i);
+                    packets.insert(j, pk.clone());
+                }
+                packets.insert(i + 1, pk);
+            }
             match tail {
                 0 => {
                     // V9 packet with data for an id nobody defined
